@@ -563,7 +563,9 @@ func Gen(seed int64, index int, o GenOpts) *Case {
 				// unit that is not a random-access one, frequent
 				pChange, pNonRA = 0.7, 0.6
 			}
-			if nParams > 1 && chance(pChange) && o.Profile != "regular" {
+			// (regular profile: a quarter of the cases, changes at random-access units only)
+			regularChange := o.Profile == "regular" && (uint64(seed)*5+uint64(index)*3)%4 == 3
+			if nParams > 1 && (o.Profile != "regular" && chance(pChange) || regularChange) {
 				nch := 1 + pick(3)
 				for k := 0; k < nch; k++ {
 					changeOnRA[2+pick(nSegs*2+2)] = true
@@ -576,7 +578,7 @@ func Gen(seed int64, index int, o GenOpts) *Case {
 					c.Features["param-backtoback"] = true
 				}
 				c.Features["paramchange"] = true
-				if (sp.Kind == H264 || sp.Kind == H265) && chance(pNonRA) {
+				if (sp.Kind == H264 || sp.Kind == H265) && !regularChange && chance(pNonRA) {
 					changeOnNonRA[1+pick(nSegs*2)] = true
 					c.Features["param-nonra"] = true
 					if o.Profile == "e2e" && len(changeOnRA)%2 == 1 {
